@@ -323,10 +323,15 @@ type tmEv struct {
 	Kind int // 0 before the first instance, 1 header, 2 row, 3 cannot-matter unit while receiving, 4 terminating header, 5 after it
 	U    []byte
 }
+
+// a delivery as the Coq specification has it: 0 PUnits (time, identifier, N events, truncated trailing unit),
+// 1 PNoTime (payload), 2 PInert (time, payload)
 type tmPES struct {
+	Kind  int
 	T     int64
 	Ident byte
 	N     int
+	Raw   []byte
 }
 type tmInstSpec struct {
 	T    int64
@@ -373,8 +378,15 @@ func genTmCase(r *rng, wild bool) *tmCase {
 	flush := func() {
 		if cur != nil {
 			id := ident()
-			tc.Ds = append(tc.Ds, tmDelivery{T: t, Data: append([]byte{id}, cur...)})
-			tc.PESs = append(tc.PESs, tmPES{T: t, Ident: id, N: pending})
+			var trail []byte
+			if pesNoise && r.chance(1, 8) {
+				// the last unit of the payload is cut short
+				kinds["pes-truncated-unit"]++
+				u := rowPacket(mag, 4, []byte("\x0bTRUNCATED\x0a"))
+				trail = u[:r.intn(len(u))]
+			}
+			tc.Ds = append(tc.Ds, tmDelivery{T: t, Data: append(append([]byte{id}, cur...), trail...)})
+			tc.PESs = append(tc.PESs, tmPES{T: t, Ident: id, N: pending, Raw: trail})
 			cur, pending = nil, 0
 		}
 	}
@@ -394,30 +406,32 @@ func genTmCase(r *rng, wild bool) *tmCase {
 			}
 			if r.chance(1, 8) {
 				kinds["pes-without-time"]++
-				tc.SpecOK = false
 				d := []byte{ident()}
 				d = append(d, tmHeaderUnit(r, tmHeader{mag: mag, tens: page / 10, units: page % 10, subtitle: true, serial: serial})...)
 				d = append(d, rowPacket(mag, 3, []byte("\x0bNO TIME\x0a"))...)
 				tc.Ds = append(tc.Ds, tmDelivery{T: -1, Data: d})
+				tc.PESs = append(tc.PESs, tmPES{Kind: 1, Raw: d})
 			}
 			if r.chance(1, 8) {
 				kinds["pes-other-identifier"]++
-				tc.SpecOK = false
 				d := []byte{[]byte{0x00, 0x0f, 0x20, 0x99, 0xff}[r.intn(5)]}
 				d = append(d, tmHeaderUnit(r, tmHeader{mag: mag, tens: page / 10, units: page % 10, subtitle: true, serial: serial})...)
 				d = append(d, rowPacket(mag, 3, []byte("\x0bNOT EBU\x0a"))...)
 				tc.Ds = append(tc.Ds, tmDelivery{T: t, Data: d})
+				tc.PESs = append(tc.PESs, tmPES{Kind: 2, T: t, Raw: d})
 			}
 			if r.chance(1, 12) {
 				kinds["pes-empty"]++
-				tc.SpecOK = false
 				tc.Ds = append(tc.Ds, tmDelivery{T: t, Data: nil})
+				tc.PESs = append(tc.PESs, tmPES{Kind: 2, T: t})
 			}
 			if r.chance(1, 12) {
 				kinds["pes-truncated-unit"]++
-				tc.SpecOK = false
 				u := rowPacket(mag, 4, []byte("\x0bTRUNCATED\x0a"))
-				tc.Ds = append(tc.Ds, tmDelivery{T: t, Data: append([]byte{ident()}, u[:2+r.intn(len(u)-2)]...)})
+				id := ident()
+				tr := u[:r.intn(len(u))]
+				tc.Ds = append(tc.Ds, tmDelivery{T: t, Data: append([]byte{id}, tr...)})
+				tc.PESs = append(tc.PESs, tmPES{T: t, Ident: id, Raw: tr})
 			}
 		}
 	}
@@ -752,7 +766,14 @@ func (tc *tmCase) specInput() (string, bool) {
 	}
 	e.n(len(tc.PESs))
 	for _, p := range tc.PESs {
-		e.i(p.T * 1e6).n(int(p.Ident)).n(p.N)
+		switch p.Kind {
+		case 0:
+			e.n(0).i(p.T * 1e6).n(int(p.Ident)).n(p.N).bytes(p.Raw)
+		case 1:
+			e.n(1).bytes(p.Raw)
+		default:
+			e.n(2).i(p.T * 1e6).bytes(p.Raw)
+		}
 	}
 	return e.String(), ok
 }
